@@ -14,7 +14,7 @@ ZDESER = "crates/dns-types/src/zones/deserialise.rs"
 
 TRUSTED = TRUSTED_COMMON + [
     "R46: the character iterator (`data.chars().peekable()`) read as the stand-in `CharStream` (see unit zone_text); `shim_chars(data)` yields the characters of `data`",
-    "the entry parsers parse_origin / parse_include / parse_rr (and behind them parse_domain, parse_u32, try_parse_rtype_with_data) are oracles: parse_entry as used by Zone::deserialise is the uninterpreted function `entry_of(context, text)`; that the real parse_entry is such a function of its arguments is read off its body (proved here only: termination, consumption, arguments passed on unchanged)",
+    "the entry parsers parse_origin / parse_include / parse_rr are oracles in THIS unit (their meaning is proved in unit zone_rr, down to try_parse_rtype_with_data, u32::from_str and the dotted-name parsers): parse_entry as used by Zone::deserialise is the uninterpreted function `entry_of(context, text)`; that the real parse_entry is such a function of its arguments is read off its body (proved here only: termination, consumption, arguments passed on unchanged)",
     "tokenise_entry: contract assumed here (consumes input; the text of a token is its octets), proved in unit zone_text",
     "Zone::new / default / get_apex / insert / insert_wildcard: stand-ins that record apex, SOA and the inserted records in order (their meaning - tree placement, TTL raised to the SOA minimum - is proved in units zone_build / zone_lookup)",
     "DomainName::is_subdomain_of: contract assumed here, proved in unit names; RecordTypeWithData::rtype assumed to agree with the variant (proved in wire_codec); `String == &str` as a shim without postcondition (R33)",
